@@ -1,6 +1,6 @@
 # C12 — token-registry permissions gate every AMM operation and IBC export
 LEAN_MODULES = ["Sif.Props.C12"]
-EXTRACT = [{"group": "perm", "passes": ["perms", "lookup"]}]
+EXTRACT = [{"group": "perm", "passes": ["perms", "lookup", "settoken"]}]
 FAMILIES = [
     {"name": "perm", "family": "perm", "group": "perm", "driver": "drv_perm",
      "n_quick": 3000, "n_thorough": 40000, "seeds_thorough": 3},
@@ -21,7 +21,11 @@ RULE = ("perm: L1 on the real clp / tokenregistry message servers and the real i
         "an ordinary entry, or are prefixes / suffixes / case variants of registered denoms (cusd, cusdcx, Cusdc, CUSDC, owan): every "
         "message kind and swap route naming them x each of those fields (and all at once) x carrier with full permissions / random "
         "permissions x the named denom having no entry / an own entry without / with permissions, plus n/4 random ones; one message in "
-        "five of the transaction histories names such a denom and a quarter of their edits are voucher shaped. Compared: registry after every edit, pass/refuse of every message (transfer: refused by the "
+        "five of the transaction histories names such a denom and a quarter of their edits are voucher shaped; (f) re-registration of an "
+        "ALREADY registered denom (cusdc with a pool, cdash without, rowan) through MsgRegister with an empty (nil and zero-length), "
+        "shrunk, grown or identical permission list, changed decimals, changed unit denom (13 shapes), followed at once by every gated "
+        "message on that denom. Every registry message is rendered from the message as SENT (the handler gets its own copy) and has its own "
+        "chk c12.regstored: the registry as stored afterwards (raw KV bytes) equals the edit applied to the registry as stored before. Compared: registry after every edit, pass/refuse of every message (transfer: refused by the "
         "wrapper or reached the ibc-go stub), whether a refused handler wrote to its own cached state. chk: accepted => decision table "
         "holds on the registry AS STORED (bytes read from the tokenregistry KV store of the context the message ran on and decoded, "
         "not through the keeper's GetRegistry); refused => digest of all 23 KV stores unchanged. non-trivial = distinct message line")
@@ -30,6 +34,8 @@ TRUSTED_BASE = [
     "fact translator extract/perm/perms.go (go/ast, syntactic): its recognition of the guard shapes, of 'the failing branch returns "
     "a non-nil error', and of 'state-writing call' (any call rooted at the handler's receiver or taking ctx whose name does not "
     "start with Get/Is/Exists/Check/Has/Calc/Validate/…); unrecognised registry calls become Guard.unknown and fail the obligation",
+    "fact pass `settoken` (same translator): fields of stored entries SetToken reads, assignments into the incoming entry, verbatim "
+    "replace / append",
     "fact pass `lookup` (same translator): which entry fields GetEntry's body selects, its successful returns, the Denom-equality "
     "guard of the one inside the range loop; CheckEntryPermissions' body is not translated (tied by the matrix only)",
     "hand-written Lean model of GetEntry / CheckEntryPermissions / SetToken / RemoveToken / GetLiquidityAddSymmetryState, tied by "
